@@ -560,60 +560,298 @@ func (c *Checker) checkReadPMT() {
 		return
 	}
 	c.analysed[fn.String()] = true
-	doneFn, _ := c.P.Func("psi:PmtAccumulatorDoneFunc")
-	newAcc, _ := c.P.Func("packet:NewAccumulator")
-	newPMT, _ := c.P.Func("psi:NewPMT")
-	pidFn, _ := c.P.Func("packet:Pid")
-	// accumulator built with the PMT completion predicate
-	okAcc := false
-	for _, ci := range callsTo(fn, newAcc) {
-		if f, ok := ci.Common().Args[0].(*ssa.Function); ok && f == doneFn {
-			okAcc = true
-		}
-		if mc, ok := ci.Common().Args[0].(*ssa.MakeClosure); ok && mc.Fn == ssa.Value(doneFn) {
-			okAcc = true
-		}
-		if strings.Contains(sx(ci.Common().Args[0]), "PmtAccumulatorDoneFunc") {
-			okAcc = true
-		}
-	}
-	c.check("C06.reader", anchor, "accumulates with the PMT completion predicate", okAcc, "NewAccumulator is not given PmtAccumulatorDoneFunc")
-	// WritePacket dominated by Pid(pkt) == pid
-	okGate := false
-	for _, ci := range allCalls(fn) {
-		call, ok := ci.(*ssa.Call)
-		if !ok || !call.Call.IsInvoke() || call.Call.Method.Name() != "WritePacket" {
-			continue
-		}
-		for b := call.Block(); b != nil && b.Idom() != nil; b = b.Idom() {
-			id := b.Idom()
-			ifi, ok := id.Instrs[len(id.Instrs)-1].(*ssa.If)
-			if !ok {
+	c.checkReadPMTStep(fn)
+}
+
+// pidSeed fixes the PID bits of a packet being read: flip < 0 gives exactly
+// pid; flip = k gives bit k the complement of pid's bit k and leaves the other
+// twelve symbolic (the thirteen classes together are every PID but pid).
+func pidSeed(pid, flip int) func(i int64, b *BV) *BV {
+	return func(i int64, b *BV) *BV {
+		for k := 0; k < 13; k++ {
+			at, bit := int64(2), k
+			if k >= 8 {
+				at, bit = 1, k-8
+			}
+			if at != i {
 				continue
 			}
-			cs := sx(ifi.Cond)
-			usesPID := strings.Contains(cs, pidFn.String()+"(") || strings.Contains(cs, "packet.Packet).PID(")
-			if usesPID && strings.Contains(canonConstruct(fn, cs), "$p1") { // the pid parameter, whatever it is called
-				if (strings.Contains(cs, "==") && id.Succs[0] == b) || (strings.Contains(cs, "!=") && id.Succs[1] == b) {
-					okGate = true
+			want := pid>>uint(k)&1 == 1
+			switch {
+			case flip < 0:
+				b.Bits[bit] = bconst(want)
+			case k == flip:
+				b.Bits[bit] = bconst(!want)
+			}
+		}
+		return b
+	}
+}
+
+// packetReadModel replaces io.ReadFull by a model that fills a 188-byte
+// buffer with symbolic bytes "rd[i]" adjusted by seed and returns an unknown
+// count and error; *res receives the call's result, *buf the buffer.
+func packetReadModel(res *Val, buf **SliceV, seed func(i int64, b *BV) *BV, also func(in *Interp)) func(in *Interp) {
+	return func(in *Interp) {
+		if also != nil {
+			also(in)
+		}
+		prev := in.Intrinsic
+		in.Intrinsic = func(f *ssa.Function, args []Val, st *State) (Val, bool) {
+			if f.String() != "io.ReadFull" || len(args) != 2 {
+				if prev != nil {
+					return prev(f, args, st)
+				}
+				return nil, false
+			}
+			b, ok := args[1].(*SliceV)
+			if !ok {
+				in.fail("read model: buffer is %s", showVal(args[1]))
+				return nil, true
+			}
+			lo, _ := b.Lo.ConstInt()
+			n, _ := b.Len.ConstInt()
+			if n != 188 {
+				in.fail("read model: the buffer handed to io.ReadFull has %d bytes, not a whole packet", n)
+				return nil, true
+			}
+			for i := int64(0); i < n; i++ {
+				v := &BV{W: 8, Bits: append([]Bit(nil), cellBV("rd", int(i)).Bits...)}
+				if seed != nil {
+					v = seed(i, v)
+				}
+				in.setCell(st, b.Obj, joinPath(b.Prefix, int(lo+i)), v)
+			}
+			v := in.opaque(f.Signature.Results(), "io.ReadFull")
+			in.event(Event{Kind: "call", Note: "io.ReadFull", Val: v})
+			*res = v
+			if buf != nil {
+				*buf = b
+			}
+			return v, true
+		}
+	}
+}
+
+// checkReadPMTStep: one abstract iteration of ReadPMT's loop from a symbolic
+// loop state (accumulator, table so far, done flag), the read replaced by
+// packetReadModel, NewPMT and the accumulator's methods uninterpreted (they
+// are decided by C06.parse and C17).
+func (c *Checker) checkReadPMTStep(fn *ssa.Function) {
+	const anchor = "psi:ReadPMT"
+	const rule = "C06.readstep"
+	newPMT, _ := c.P.Func("psi:NewPMT")
+	doneFn, _ := c.P.Func("psi:PmtAccumulatorDoneFunc")
+	type run struct {
+		ls  *LoopStep
+		rd  Val
+		buf *SliceV
+		err error
+	}
+	step := func(pid, flip int) *run {
+		r := &run{}
+		setup := packetReadModel(&r.rd, &r.buf, pidSeed(pid, flip), func(in *Interp) {
+			prev := in.OpaqueFn
+			in.OpaqueFn = func(f *ssa.Function) bool { return f == newPMT || (prev != nil && prev(f)) }
+		})
+		r.ls, r.err = AnalyzeLoop(c.P, fn, &AnalyzeOpts{Args: map[string]Val{pinnedParamName(fn, 1, "pid"): constInt(int64(pid), 64, true)}, Setup: setup})
+		return r
+	}
+	phiOf := func(ls *LoopStep, isT func(t types.Type) bool) *ssa.Phi {
+		var out *ssa.Phi
+		for _, p := range ls.Phis {
+			if isT(p.Type()) {
+				if out != nil {
+					return nil
+				}
+				out = p
+			}
+		}
+		return out
+	}
+	isBool := func(t types.Type) bool { b, ok := t.Underlying().(*types.Basic); return ok && b.Kind() == types.Bool }
+	isNamed := func(name string) func(t types.Type) bool {
+		return func(t types.Type) bool { return strings.HasSuffix(t.String(), name) }
+	}
+	// entry facts of an iteration: the loop runs while the table is not complete
+	inLoop := func(r *run) (*factSet, Bit, bool) {
+		fs := newFactSet(nil)
+		tup, _ := r.rd.(*StructV)
+		if tup == nil || len(tup.Fields) != 2 {
+			return nil, nil, false
+		}
+		if dp := phiOf(r.ls, isBool); dp != nil {
+			if d, ok := r.ls.Pre[dp].(*BV); ok && d.W == 1 {
+				fs.assume(bnot(d.Bits[0]))
+			}
+		}
+		return fs, r.ls.Sum.in.nilBit(tup.Fields[1]), true
+	}
+	callsOf := func(r *run, suffix string) []*Event {
+		var out []*Event
+		for i := range r.ls.Sum.Events {
+			e := &r.ls.Sum.Events[i]
+			if e.Kind == "call" && strings.HasSuffix(e.Note, suffix) {
+				out = append(out, e)
+			}
+		}
+		return out
+	}
+	// (a) packets of other PIDs are skipped
+	bad, first, n := 0, "", 0
+	for _, pid := range []int{0x100, 0x1FFF, 0x0011} {
+		for k := 0; k < 13; k++ {
+			r := step(pid, k)
+			n++
+			why := ""
+			fs, erNil, ok := inLoop(r)
+			switch {
+			case r.err != nil:
+				why = r.err.Error()
+			case !ok:
+				why = "no io.ReadFull call in the loop"
+			default:
+				fs.assume(erNil)
+				if cont := fs.bit(r.ls.Cond); !isConst(cont) || !cont.c {
+					why = "the loop goes on only under " + cont.String()
+				}
+				for _, e := range callsOf(r, ".WritePacket") {
+					if dc := fs.bit(e.Cond); !isConst(dc) || dc.c {
+						why = "the packet is accumulated under " + dc.String()
+					}
+				}
+				for _, p := range r.ls.Phis {
+					if why == "" && !sameVal(fs.val(r.ls.Next[p]), fs.val(r.ls.Pre[p])) {
+						why = "loop variable " + p.Comment + " changes: " + showVal(fs.val(r.ls.Next[p]))
+					}
+				}
+			}
+			if why != "" {
+				bad++
+				if first == "" {
+					first = fmt.Sprintf("requested PID %#x, packet PID differing in bit %d: %s", pid, k, why)
 				}
 			}
 		}
 	}
-	c.check("C06.reader", anchor, "only packets whose PID equals the requested PMT PID are accumulated", okGate, "WritePacket is not dominated by Pid(pkt) == pid")
-	// NewPMT on accumulator Bytes()
-	okNew := false
-	for _, ci := range callsTo(fn, newPMT) {
-		if strings.Contains(sx(ci.Common().Args[0]), "Bytes(") {
-			okNew = true
-		}
+	c.check(rule, anchor, "a packet of another PID is skipped whatever it contains and changes nothing (3 requested PIDs x 13 one-bit classes)", bad == 0, fmt.Sprintf("%d of %d classes fail; first: %s", bad, n, first))
+	// (b) a packet of the requested PID
+	r := step(0x100, -1)
+	fs, erNil, ok := inLoop(r)
+	if r.err != nil || !ok {
+		c.undecided(rule, anchor, "loop step", fmt.Sprintf("packet of the requested PID: %v", r.err))
+		return
 	}
-	c.check("C06.reader", anchor, "the PMT is parsed from the accumulated bytes", okNew, "NewPMT argument is not acc.Bytes()")
-	nf := false
-	for _, b := range fn.Blocks {
-		if r, ok := b.Instrs[len(b.Instrs)-1].(*ssa.Return); ok && len(r.Results) == 2 && strings.HasSuffix(sx(r.Results[1]), "ErrPMTNotFound") {
-			nf = true
-		}
+	in := r.ls.Sum.in
+	accPhi := phiOf(r.ls, isNamed("packet.Accumulator"))
+	pmtPhi := phiOf(r.ls, isNamed("psi.PMT"))
+	donePhi := phiOf(r.ls, isBool)
+	wr, by, np, pd := callsOf(r, ".WritePacket"), callsOf(r, "Accumulator).Bytes"), callsOf(r, "psi.NewPMT"), callsOf(r, "PMT).Pids")
+	if accPhi == nil || pmtPhi == nil || donePhi == nil || len(wr) != 1 || len(by) != 1 || len(np) != 1 || len(pd) != 1 {
+		c.undecided(rule, anchor, "loop step", fmt.Sprintf("loop state or calls not recognised (accumulator %v, table %v, done %v; %d WritePacket, %d Bytes, %d NewPMT, %d Pids)", accPhi != nil, pmtPhi != nil, donePhi != nil, len(wr), len(by), len(np), len(pd)))
+		return
 	}
-	c.check("C06.reader", anchor, "end of stream without a complete PMT yields the not-found error", nf, "ErrPMTNotFound is never returned")
+	// the loop starts with a fresh accumulator using the PMT completion predicate
+	freshAcc := func(v Val) string {
+		iv, ok := v.(*IfaceV)
+		if !ok {
+			return "is " + showVal(v)
+		}
+		p, ok := iv.V.(*Ptr)
+		if !ok || !r.ls.Sum.Out.born[p.Obj] && p.Obj.Kind == "param" {
+			return "is " + showVal(v)
+		}
+		fi, _, err := c.P.structFieldIndex("packet", "accumulator", "f")
+		if err != nil {
+			return err.Error()
+		}
+		st := r.ls.Sum.Out
+		for _, b := range r.ls.Back {
+			if b != nil && b.cells[p.Obj] != nil {
+				st = b
+			}
+		}
+		fv, _ := in.loadPath(st, p.Obj, joinPath(p.Path, fi), doneFn.Signature).(*FuncV)
+		if fv == nil || fv.Fn != interface{}(doneFn) {
+			return "does not use PmtAccumulatorDoneFunc"
+		}
+		return ""
+	}
+	d := freshAcc(r.ls.Init[accPhi])
+	c.check(rule, anchor, "accumulation starts with a new accumulator that uses the PMT completion predicate", d == "", "the accumulator "+d)
+	werr := wr[0].Val.(*StructV).Fields[1]
+	wNil, wDone := in.nilBit(werr), in.eqBit(werr, SymConst{Name: "gots.ErrAccumulatorDone"})
+	npRes := np[0].Val.(*StructV)
+	npNil := in.nilBit(npRes.Fields[1])
+	nPids := in.lenOf(pd[0].Val)
+	if nPids == nil {
+		nPids, _ = in.opaqueNamed(types.Typ[types.Int], "len", pd[0].Val).(*BV)
+	}
+	if nPids == nil {
+		c.undecided(rule, anchor, "loop step", "the length of the table's PID list is not an integer")
+		return
+	}
+	empty := bvEq(nPids, constInt(0, 64, true))
+	with := func(extra ...Bit) *factSet {
+		f2 := newFactSet(fs)
+		f2.assume(erNil)
+		for _, b := range extra {
+			f2.assume(b)
+		}
+		return f2
+	}
+	{
+		f2 := with()
+		dc := f2.bit(wr[0].Cond)
+		okArg := false
+		if len(wr[0].Args) == 2 {
+			if sn, isSnap := wr[0].Args[1].(*SnapV); isSnap && r.buf != nil {
+				okArg = sn.Ptr.Obj == r.buf.Obj && sn.Ptr.Base == 0 && sameVal(wr[0].Args[0], r.ls.Pre[accPhi])
+			}
+		}
+		c.check(rule, anchor, "a packet of the requested PID is handed to the current accumulator", isConst(dc) && dc.c && okArg, fmt.Sprintf("WritePacket under %s with %s", dc, showVal(wr[0].Args)))
+	}
+	same := func(f2 *factSet, p *ssa.Phi) bool { return sameVal(f2.val(r.ls.Next[p]), f2.val(r.ls.Pre[p])) }
+	goesOn := func(f2 *factSet) bool { b := f2.bit(r.ls.Cond); return isConst(b) && b.c }
+	leaves := func(f2 *factSet) bool { b := f2.bit(r.ls.Cond); return isConst(b) && !b.c }
+	{
+		f2 := with(wNil, bnot(wDone))
+		c.check(rule, anchor, "accumulator not complete yet: the loop continues with the same accumulator", goesOn(f2) && same(f2, accPhi) && same(f2, pmtPhi) && same(f2, donePhi), "next accumulator "+showVal(f2.val(r.ls.Next[accPhi])))
+	}
+	{
+		f2 := with(bnot(wNil), wDone)
+		dc := f2.bit(np[0].Cond)
+		okArg := len(np[0].Args) == 1 && sameVal(np[0].Args[0], by[0].Val) && len(by[0].Args) == 1 && sameVal(by[0].Args[0], r.ls.Pre[accPhi])
+		c.check(rule, anchor, "accumulator complete: the table is parsed from that accumulator's bytes", isConst(dc) && dc.c && okArg, fmt.Sprintf("NewPMT under %s with %s", dc, showVal(np[0].Args)))
+	}
+	{
+		f2 := with(bnot(wNil), wDone, npNil, bnot(empty))
+		nd, _ := f2.val(r.ls.Next[donePhi]).(*BV)
+		okDone := nd != nil && nd.W == 1 && isConst(nd.Bits[0]) && nd.Bits[0].c
+		c.check(rule, anchor, "a table with elementary streams ends the search and becomes the result", goesOn(f2) && okDone && sameVal(f2.val(r.ls.Next[pmtPhi]), npRes.Fields[0]), fmt.Sprintf("done=%s table=%s", showVal(f2.val(r.ls.Next[donePhi])), showVal(f2.val(r.ls.Next[pmtPhi]))))
+	}
+	// invariant of the loop state: the accumulator carried into the next
+	// iteration is the current one or a new one with the PMT predicate
+	{
+		d := ""
+		for _, leaf := range muxLeaves(r.ls.Next[accPhi]) {
+			if sameVal(leaf, r.ls.Pre[accPhi]) {
+				continue
+			}
+			if w := freshAcc(leaf); w != "" {
+				d = "a next accumulator " + w
+			}
+		}
+		c.check(rule, anchor, "the accumulator carried into the next iteration is the current one or a new one that uses the PMT completion predicate", d == "", d)
+	}
+	// when the flag is set the loop is left with the table found
+	{
+		f2 := newFactSet(nil)
+		if dv, ok := r.ls.Pre[donePhi].(*BV); ok {
+			f2.assume(dv.Bits[0])
+		}
+		got0, got1 := f2.val(r.ls.Sum.RetN(0)), f2.val(r.ls.Sum.RetN(1))
+		_, nilErr := got1.(NilV)
+		c.check(rule, anchor, "once complete, the table found is returned without error", leaves(f2) && sameVal(got0, r.ls.Pre[pmtPhi]) && nilErr, fmt.Sprintf("result (%s, %s)", showVal(got0), showVal(got1)))
+	}
 }
